@@ -75,6 +75,11 @@ class Di(V):
         self.d = dict(d)
 
 
+class Rows(Di):
+    """A structured array with ONE record (fields are scalars): subscripting by field name gives the
+    scalar, iterating gives the single row."""
+
+
 class Fn(V):
     def __init__(self, call, term=None):
         self.call = call  # python callable (tr, node, args, kwargs) -> V
@@ -814,6 +819,13 @@ class Tr:
                 res = isinstance(l, Non)
                 return Bo(res if isinstance(op, ast.Is) else not res)
             fail(node, "is-comparison")
+        if isinstance(l, SV) and isinstance(r, Sc):
+            out = []
+            for it in l.items:
+                fake = ast.Compare(left=ast.Name(id="__l"), ops=[op], comparators=[ast.Name(id="__r")])
+                ast.copy_location(fake, node)
+                out.append(self.ev_Compare(fake, {"__l": it, "__r": r}))
+            return SV(out)
         if isinstance(l, St) and isinstance(r, St):
             if isinstance(op, ast.Eq):
                 return Bo(l.s == r.s)
@@ -903,6 +915,8 @@ class Tr:
         if not isinstance(g.target, ast.Name):
             fail(node, "comprehension target")
         nm = g.target.id
+        if isinstance(it, Rows):
+            it = SV([Tu(list(it.d.values()))])
         if isinstance(it, SV):
             out = []
             for item in it.items:
@@ -1133,6 +1147,8 @@ def _sum(tr, node, args, kwargs):
     if len(args) != 1 or kwargs:
         fail(node, "sum arity")
     v = args[0]
+    if isinstance(v, Tu):
+        v = SV(v.items)
     if isinstance(v, SV):
         if not v.items:
             return Sc("0")
@@ -1321,6 +1337,21 @@ def _diags(tr, node, args, kwargs):
     return Tu(list(args[0].items))
 
 
+def _any(tr, node, args, kwargs):
+    if len(args) != 1 or kwargs or not isinstance(args[0], SV) or not all(isinstance(b, Bo) for b in args[0].items):
+        fail(node, "np.any form")
+    terms = []
+    for b in args[0].items:
+        if b.kind is True:
+            return Bo(True)
+        if b.kind is False:
+            continue
+        terms.append(tr.to_bool_term(b))
+    if not terms:
+        return Bo(False)
+    return Bo("bool", "(" + " || ".join(terms) + ")%bool")
+
+
 def _zip(tr, node, args, kwargs):
     fail(node, "zip")
 
@@ -1338,7 +1369,7 @@ BUILTINS = {
     "cumulative_trapezoid": _cumtrapz, "sp.integrate.cumulative_trapezoid": _cumtrapz,
     "integrate.cumulative_trapezoid": _cumtrapz,
     "brentq": _brentq, "quad": _quad,
-    "pd.DataFrame": _dataframe, "np.vectorize": _vectorize, "sparse.diags": _diags,
+    "np.any": _any, "pd.DataFrame": _dataframe, "np.vectorize": _vectorize, "sparse.diags": _diags,
 }
 
 
